@@ -111,7 +111,9 @@ fn record_w(rng: &mut Rng, ac: &mut Ac, w: u64) -> (Vec<u8>, &'static str) {
         };
         (es(ac, ca, &me, rng), "bds09")
     } else if w < 51 {
-        let id = frames::id13_from_squawk(k as u8, rng.below(8) as u8, rng.below(8) as u8, rng.below(8) as u8);
+        // one status message in seven carries an empty Mode A code next to its emergency state, as ADS-B version 1
+        // transponders send it
+        let id = if rng.chance(0.15) { 0 } else { frames::id13_from_squawk(k as u8, rng.below(8) as u8, rng.below(8) as u8, rng.below(8) as u8) };
         (es(ac, ca, &frames::me_status(1, rng.below(8) as u8, id, 0), rng), "bds61")
     } else if w < 57 {
         let t = frames::Tss {
